@@ -21,7 +21,10 @@ _CMP = {
     ast.Eq: operator.eq, ast.NotEq: operator.ne, ast.Lt: operator.lt, ast.LtE: operator.le, ast.Gt: operator.gt, ast.GtE: operator.ge,
     ast.In: lambda a, b: a in b, ast.NotIn: lambda a, b: a not in b, ast.Is: operator.is_, ast.IsNot: operator.is_not,
 }
-_CALLS = {"len": len, "range": range, "abs": abs, "min": min, "max": max, "int": int, "set": set, "tuple": tuple, "list": list, "any": any, "all": all}
+_CALLS = {"len": len, "range": range, "abs": abs, "min": min, "max": max, "int": int, "set": set, "tuple": tuple, "list": list, "any": any, "all": all,
+          "bool": bool, "frozenset": frozenset, "sorted": sorted, "sum": sum}
+_STRM = ("strip", "lstrip", "rstrip", "lower", "upper", "startswith", "endswith", "find", "count", "replace", "translate", "isalpha")
+_SETM = ("isdisjoint", "intersection", "issubset", "issuperset", "union", "difference")
 
 
 def ev(node, env, calls=None):
@@ -89,6 +92,14 @@ def ev(node, env, calls=None):
             text = " ".join(ast.unparse(n).split())
             if text in env:
                 return env[text]
+            if isinstance(n.func, ast.Attribute) and n.func.attr in _SETM and not n.keywords:
+                recv = go(n.func.value)
+                if isinstance(recv, (set, frozenset)):
+                    return getattr(recv, n.func.attr)(*[go(a) for a in n.args])
+            if isinstance(n.func, ast.Attribute) and n.func.attr in _STRM and not n.keywords:
+                recv = go(n.func.value)
+                if isinstance(recv, str):
+                    return getattr(recv, n.func.attr)(*[go(a) for a in n.args])
             raise CannotEval(f"call {key}")
         if isinstance(n, (ast.ListComp, ast.GeneratorExp)) and len(n.generators) == 1 and isinstance(n.generators[0].target, ast.Name):
             g = n.generators[0]
@@ -107,3 +118,67 @@ def ev(node, env, calls=None):
         raise CannotEval(type(n).__name__)
 
     return go(node)
+
+
+class _Ret(Exception):
+    def __init__(self, v):
+        self.v = v
+
+
+class _Brk(Exception):
+    pass
+
+
+class _Cont(Exception):
+    pass
+
+
+def run_pure(fn: ast.FunctionDef, args, calls=None, fuel=2000, extra=None):
+    """Fold a small *pure* helper (local assignments, for/if/return/break/continue over `ev` expressions) on one tuple of
+    literal arguments.  Anything else raises CannotEval."""
+    env = {a.arg: v for a, v in zip(fn.args.args, args)}
+    env.update(extra or {})
+    left = [fuel]
+
+    def block(stmts):
+        for s in stmts:
+            left[0] -= 1
+            if left[0] < 0:
+                raise CannotEval("fuel")
+            if isinstance(s, ast.Expr) and isinstance(s.value, ast.Constant):
+                continue
+            if isinstance(s, ast.Return):
+                raise _Ret(ev(s.value, env, calls) if s.value is not None else None)
+            if isinstance(s, ast.Assign) and len(s.targets) == 1 and isinstance(s.targets[0], ast.Name):
+                env[s.targets[0].id] = ev(s.value, env, calls)
+            elif isinstance(s, ast.AugAssign) and isinstance(s.target, ast.Name) and type(s.op) in _BIN:
+                env[s.target.id] = _BIN[type(s.op)](env[s.target.id], ev(s.value, env, calls))
+            elif isinstance(s, ast.If):
+                block(s.body if ev(s.test, env, calls) else s.orelse)
+            elif isinstance(s, ast.For) and isinstance(s.target, ast.Name):
+                broke = False
+                for x in ev(s.iter, env, calls):
+                    env[s.target.id] = x
+                    try:
+                        block(s.body)
+                    except _Brk:
+                        broke = True
+                        break
+                    except _Cont:
+                        continue
+                if not broke:
+                    block(s.orelse)
+            elif isinstance(s, ast.Break):
+                raise _Brk()
+            elif isinstance(s, ast.Continue):
+                raise _Cont()
+            elif isinstance(s, ast.Pass):
+                pass
+            else:
+                raise CannotEval(type(s).__name__)
+
+    try:
+        block(fn.body)
+    except _Ret as r:
+        return r.v
+    return None
